@@ -4200,14 +4200,20 @@ def jobs_record_setitem(tier):
 
 # ------------------------------------------------------------------------------------------------ C07 / C05: the axis-0 helpers of Content
 @guard
-def h_axis0(L, what, n=2, replacement=False):
+def h_axis0(L, what, n=2, replacement=False, cls=None, dims=None):
     """Content::combinations_axis0 / localindex_axis0 on an array of L entries: the combinations are the itertools tuples of the entries
-    themselves, in order, as records whose fields are selections from this very array; the local index is 0..L-1"""
+    themselves, in order, as records whose fields are selections from this very array; the local index is 0..L-1.  cls / dims: the array is a
+    real node of that class (option-type, indexed, list) over the opaque content instead of the opaque content itself - the answer is a final
+    result, so it also obeys the rule that no indexed / option-type node sits directly on another one"""
     import itertools as it
     comb = it.combinations_with_replacement if replacement else it.combinations
     ntup = len(list(comb(range(L), n)))
-    nc = NodeCtx(['CNT', 'REC', 'IA', 'NA', 'IDX', 'UTL', 'KD', 'IDS', 'EA'], [], unwind=max(12, 2 * ntup + 2 * L + 4 * n + 12))
-    nc.m.assume(nc.lencontent == L)
+    nc = NodeCtx(['CNT', 'REC', 'IA', 'NA', 'IDX', 'UTL', 'KD', 'IDS', 'EA'] + (['LOA', 'LA', 'RA', 'UMA', 'BMA'] if cls else []), [], unwind=max(12, 2 * ntup + 2 * L + 4 * n + 12))
+    if cls is None:
+        nc.m.assume(nc.lencontent == L)
+        receiver, entries, rp = nc.content0, [Elem(BV(i)) for i in range(L)], None
+    else:
+        receiver, entries, short_, rp = any_node(nc, cls, dims)
     nc.m.record('ret', {})
     if what == 'combinations':
         rl = nc.m.record('recordlookup', {0: (NULL, 8), 8: (NULL, 8)}, const=True)
@@ -4215,16 +4221,28 @@ def h_axis0(L, what, n=2, replacement=False):
         nc.empty_map(pc_, 0, 'noparams')
         pm = nc.m.record('noparams', pc_, const=True)
         cands = [f for mod_ in nc.m.eng.mods for f in mod_.func_src if f.startswith('_ZNK7awkward7Content18combinations_axis0Elb')]
-        out = nc.m.call(cands[0], [Ptr('ret', 0), nc.content0, BV(n), z3.BitVecVal(1 if replacement else 0, 1), rl, pm])
-        want = [[Elem(BV(x)) for x in t] for t in comb(range(L), n)]
+        out = nc.m.call(cands[0], [Ptr('ret', 0), receiver, BV(n), z3.BitVecVal(1 if replacement else 0, 1), rl, pm])
+        want = [[entries[x] for x in t] for t in comb(range(L), n)]
     else:
-        out = nc.m.call('_ZNK7awkward7Content16localindex_axis0Ev', [Ptr('ret', 0), nc.content0])
+        out = nc.m.call('_ZNK7awkward7Content16localindex_axis0Ev', [Ptr('ret', 0), receiver])
         want = [Elem(BV(i)) for i in range(L)]
     obls = [('does not raise', out.raised)]
     res = decode(nc, out.mem, nc.m.cell('ret', 0))
-    obls += nodeh.compare_value(res, want)
+    obls += nodeh.compare_value(res, want, strict=True)
 
     def replay(model, ent):
+        if rp is not None:
+            lc = model.eval(nc.lencontent, model_completion=True).as_signed_long()
+            if lc > 200:
+                return False, 'content too long to replay', {}
+            head, pyval = rp(model, lc)
+            if what == 'combinations':
+                exp = [{str(k): pyval[v] for k, v in enumerate(t)} for t in comb(range(L), n)]
+                got = fullnative.akrun(head + 'combinations %d %d 0 validity' % (n, 1 if replacement else 0))
+                if got != ('OK', ''):
+                    return True, 'combinations(axis=0) of %s %s: the answer is not a valid array: %s' % (cls, pyval, str(got)[:300]), dict(program=head)
+                return akrun_check(head + 'combinations %d %d 0' % (n, 1 if replacement else 0), exp, 'combinations(axis=0) of %s %s' % (cls, pyval))
+            return akrun_check(head + 'localindex 0', list(range(L)), 'localindex(axis=0) of %s %s' % (cls, pyval))
         if what == 'combinations':
             prog = 'i64 %s combinations %d %d 0' % (fullnative.ints(range(100, 100 + L)), n, 1 if replacement else 0)
             exp = [{str(k): 100 + v for k, v in enumerate(t)} for t in comb(range(L), n)]
@@ -4232,15 +4250,22 @@ def h_axis0(L, what, n=2, replacement=False):
             prog = 'i64 %s regular 1 %d localindex 0' % (fullnative.ints(range(100, 100 + L)), L)
             exp = list(range(L))
         return akrun_check(prog, exp, '%s along axis 0 of %d entries' % (what, L))
-    return mdischarge(nc.m, 'Content::%s_axis0 L=%d%s' % (what, L, (' n=%d replacement=%s' % (n, replacement)) if what == 'combinations' else ''), obls, [], replay=replay,
-                      extra=dict(bounds='%d entries (case split)' % L))
+    return mdischarge(nc.m, 'Content::%s_axis0 L=%d%s%s' % (what, L, (' n=%d replacement=%s' % (n, replacement)) if what == 'combinations' else '', ' on %s %s' % (cls, dims) if cls else ''), obls, [], replay=replay,
+                      prefer=[nc.lencontent <= 12], extra=dict(bounds='%d entries (case split)' % L))
 
 
 def jobs_axis0(tier, what):
     if what == 'localindex':
         return [(h_axis0, (L, 'localindex'), 900) for L in ((0, 3) if tier == 'quick' else (0, 1, 2, 3, 5))]
     Ls = (0, 3) if tier == 'quick' else (0, 1, 2, 3, 4)
-    return [(h_axis0, (L, 'combinations', n, rep), 900) for L in Ls for n in ((2,) if tier == 'quick' else (1, 2, 3)) for rep in (False, True)]
+    js = [(h_axis0, (L, 'combinations', n, rep), 900) for L in Ls for n in ((2,) if tier == 'quick' else (1, 2, 3)) for rep in (False, True)]
+    nodes = [('IndexedOptionArray64', (0, 1, 0)), ('UnmaskedArray', (2,))] if tier == 'quick' else [('IndexedOptionArray64', (0, 1, 0)), ('IndexedOptionArray64', (1, 1)), ('UnmaskedArray', (2,)), ('UnmaskedArray', (0,)), ('ListOffsetArray64', (2, 0, 1)), ('RegularArray', (2, 2))]
+    for cls, dims in nodes:
+        L = dims[1] if cls == 'RegularArray' else (dims[0] if cls == 'UnmaskedArray' else len(dims))
+        js.append((h_axis0, (L, 'combinations', 2, False, cls, dims), 1800))
+        if tier != 'quick':
+            js.append((h_axis0, (L, 'combinations', 2, True, cls, dims), 1800))
+    return js
 
 
 # ------------------------------------------------------------------------------------------------ C01 / C08: positional operations on a union
